@@ -158,7 +158,6 @@ func NetListen(network, address string) (net.Listener, error) {
 	}
 	ns := s.net
 	ns.lock()
-	defer ns.unlock()
 	if port == 0 {
 		for ns.find(ns.nextPort) != nil {
 			ns.nextPort++
@@ -167,11 +166,13 @@ func NetListen(network, address string) (net.Listener, error) {
 		ns.nextPort++
 	}
 	if ns.find(port) != nil {
+		ns.unlock()
 		return nil, &net.OpError{Op: "listen", Net: network, Err: os.NewSyscallError("bind", syscall.EADDRINUSE)}
 	}
 	l := &Listener{ns: ns, addr: &net.TCPAddr{IP: ip, Port: port}}
 	ns.listeners = append(ns.listeners, l)
-	Event("net.listen %d", port)
+	ns.unlock()
+	Event("net.listen %d", port) // formatted outside the race-disabled region (fmt uses a sync.Pool)
 	return l, nil
 }
 
@@ -209,6 +210,16 @@ func (l *Listener) Accept() (net.Conn, error) {
 	}
 	t := s.selfOrAnon()
 	s.park(t, "net.accept", wkAccept, l)
+	c, err := l.acceptLocked()
+	if c != nil {
+		raceAcquire(unsafe.Pointer(l)) // outside the race-disabled region
+		return c, nil
+	}
+	return nil, err
+}
+
+//go:norace
+func (l *Listener) acceptLocked() (*Conn, error) {
 	l.ns.lock()
 	defer l.ns.unlock()
 	if l.closed {
@@ -295,9 +306,9 @@ func Dial(from *net.TCPAddr, port int, f *ConnFaults) (*Conn, error) {
 	Yield(ClassNet, "net.dial")
 	ns := s.net
 	ns.lock()
-	defer ns.unlock()
 	l := ns.find(port)
 	if l == nil || l.closed {
+		ns.unlock()
 		return nil, &net.OpError{Op: "dial", Net: "tcp", Err: os.NewSyscallError("connect", syscall.ECONNREFUSED)}
 	}
 	if f == nil {
@@ -311,6 +322,8 @@ func Dial(from *net.TCPAddr, port int, f *ConnFaults) (*Conn, error) {
 	cl.peer, sv.peer = sv, cl
 	ns.conns = append(ns.conns, sv)
 	l.backlog = append(l.backlog, sv)
+	ns.unlock()
+	raceReleaseMerge(unsafe.Pointer(l)) // connect happens-before the accept that returns this connection
 	Event("net.dial conn=%d from=%v port=%d", cl.id, from, port)
 	s.poke()
 	return cl, nil
@@ -449,9 +462,9 @@ func (c *Conn) Read(p []byte) (int, error) {
 	if len(c.in.buf) == 0 {
 		c.in.buf = nil
 	}
-	raceAcquire(unsafe.Pointer(c.in))
 	c.BytesRead += n
 	c.ns.unlock()
+	raceAcquire(unsafe.Pointer(c.in)) // delivery edge, published outside the race-disabled region
 	s.poke() // a blocked writer may have room now
 	return n, nil
 }
@@ -465,6 +478,9 @@ func (c *Conn) Write(p []byte) (int, error) {
 		return 0, net.ErrClosed
 	}
 	written := 0
+	// delivery edge: everything the writer did so far happens-before the read that receives
+	// these bytes (published here, outside the race-disabled region)
+	raceReleaseMerge(unsafe.Pointer(c.out))
 	for written < len(p) {
 		t := s.selfOrAnon()
 		if s.cfg.Mask&ClassNet != 0 || !c.writeReady() {
@@ -498,7 +514,6 @@ func (c *Conn) Write(p []byte) (int, error) {
 		}
 		c.out.total += len(chunk)
 		c.BytesWrote += len(chunk)
-		raceReleaseMerge(unsafe.Pointer(c.out))
 		lat := c.faults.Latency
 		data := appendBytes(nil, chunk)
 		if lat <= 0 {
